@@ -1,4 +1,5 @@
 import MazeVerif.Lemmas.AStarGrid
+import MazeVerif.Lemmas.AStarProgress
 import MazeVerif.Lemmas.GenTie
 /-! # C02 — the shortest-path solver is sound, optimal and complete on every maze
 
@@ -93,9 +94,175 @@ theorem C02_full_holds : C02_full := by
   obtain ⟨h4, h5⟩ := C02_optimal hwf h
   exact ⟨h1, h2, h3, h4, h5⟩
 
+/-! ## progress: legal picks exist, legal and sufficient picks never get stuck, connected cells get a shortest path
+
+`C02_full` constrains `.found`, `.noPath`, `.outOfFuel` only; a run can also end in `.illegalPick` / `.outOfPicks`
+(e.g. `picks = []`). The theorems below close that gap: the checked pick interface can always be satisfied
+(`argminPick`), and EVERY way of satisfying it — any list whose picks are legal when used and that has `rows*cols`
+entries, or any strategy `AS → Cell` that answers with a legal minimum on every non-empty open set (CPython's
+`min(open_vtx, key=…)` is one; so is `argminStrat`) — ends in `.found` (connected) or `.noPath` (not connected). -/
+
+/-- `PicksLegal` for a top-level call: every pick is a legal minimum at the moment `astar` uses it -/
+def AstarPicksLegal (rows cols : Nat) (E : List Edge) (start endc : Cell) (picks : List Cell) : Prop :=
+  PicksLegal (coordNeighbors rows cols E) (manhattan endc) endc (initState start endc) picks
+
+/-- the pick list a strategy produces for a top-level call when asked `n` times -/
+def astarStratPicks (rows cols : Nat) (E : List Edge) (start endc : Cell) (strat : AS → Cell) (n : Nat) : List Cell :=
+  stratPicks (coordNeighbors rows cols E) (manhattan endc) strat n (initState start endc)
+
+/-- a strategy is admissible when it answers with a legal minimum on EVERY state with a non-empty open set -/
+def LegalStrategy (strat : AS → Cell) : Prop := ∀ s : AS, s.opn ≠ [] → Legal s (strat s)
+
+/-- (1) in every state with a non-empty open set a legal pick exists, and `argminPick` computes one
+    (the first f-minimal element of the open list); `argminPick` is `none` exactly on the empty open set -/
+theorem C02_legal_pick_exists (s : AS) :
+    (s.opn ≠ [] → ∃ c, argminPick s = some c ∧ c ∈ s.opn ∧ ∀ v ∈ s.opn, s.f c ≤ s.f v) ∧
+    (argminPick s = none ↔ s.opn = []) := by
+  refine ⟨fun h => ?_, argminPick_none_iff⟩
+  obtain ⟨c, hc⟩ := argminPick_isSome h
+  exact ⟨c, hc, argminPick_legal hc⟩
+
+/-- `argminStrat` (first minimum of the open list) is an admissible strategy: the hypothesis of the strategy theorems
+    is satisfiable -/
+theorem C02_argmin_strategy_legal : LegalStrategy argminStrat := argminStrat_legal
+
+/-- the picks of an admissible strategy are legal when used, and there are as many as asked for -/
+theorem C02_strategy_picks_legal {rows cols : Nat} {E : List Edge} {start endc : Cell} {strat : AS → Cell}
+    (hstrat : LegalStrategy strat) (n : Nat) :
+    AstarPicksLegal rows cols E start endc (astarStratPicks rows cols E start endc strat n) ∧
+    (astarStratPicks rows cols E start endc strat n).length = n :=
+  ⟨stratPicks_legal _ _ _ hstrat n _, stratPicks_length _ _ _ n _⟩
+
+/-- (2) a run whose picks are legal when used, with at least `rows*cols` picks and `rows*cols + 1` iterations, ends in
+    `.found _` or `.noPath` — never `.illegalPick`, `.outOfPicks`, `.outOfFuel` (any connection list, well-formed or not) -/
+theorem C02_never_stuck {rows cols : Nat} {E : List Edge} {start endc : Cell} {picks : List Cell} {fuel : Nat}
+    (hs : inGrid rows cols start) (hleg : AstarPicksLegal rows cols E start endc picks)
+    (hlen : rows * cols ≤ picks.length) (hf : rows * cols + 1 ≤ fuel) :
+    (∃ p, astar rows cols E start endc picks fuel = .found p) ∨ astar rows cols E start endc picks fuel = .noPath := by
+  unfold astar
+  exact run_progress fuel _ picks (gridInv_init hs) hleg (by simpa [initState] using hlen) (by simpa [initState] using hf)
+
+/-- (2, strategy form) the same for the picks of ANY admissible strategy asked `rows*cols` times -/
+theorem C02_never_stuck_strategy {rows cols : Nat} {E : List Edge} {start endc : Cell} {strat : AS → Cell} {fuel : Nat}
+    (hs : inGrid rows cols start) (hstrat : LegalStrategy strat) (hf : rows * cols + 1 ≤ fuel) :
+    (∃ p, astar rows cols E start endc (astarStratPicks rows cols E start endc strat (rows * cols)) fuel = .found p) ∨
+      astar rows cols E start endc (astarStratPicks rows cols E start endc strat (rows * cols)) fuel = .noPath := by
+  obtain ⟨h1, h2⟩ := C02_strategy_picks_legal (rows := rows) (cols := cols) (E := E) (start := start) (endc := endc)
+    hstrat (rows * cols)
+  exact C02_never_stuck hs h1 (by rw [h2]; exact Nat.le_refl _) hf
+
+/-- (3) connected cells: every legal and sufficient run returns a path, and it is a shortest walk from start to end -/
+theorem C02_connected_returns_shortest {rows cols : Nat} {E : List Edge} (hwf : WF rows cols E) {start endc : Cell}
+    {picks : List Cell} {fuel : Nat} (hs : inGrid rows cols start) (hr : Reach E start endc)
+    (hleg : AstarPicksLegal rows cols E start endc picks) (hlen : rows * cols ≤ picks.length)
+    (hf : rows * cols + 1 ≤ fuel) :
+    ∃ path, astar rows cols E start endc picks fuel = .found path ∧
+      path.head? = some start ∧ path.getLast? = some endc ∧ IsWalkList (Adj E) path ∧
+      Walk (Adj E) start endc (steps path) ∧ ∀ m, Walk (Adj E) start endc m → steps path ≤ m := by
+  rcases C02_never_stuck hs hleg hlen hf with ⟨p, hp⟩ | hno
+  · obtain ⟨h1, h2, h3⟩ := C02_sound hwf hp
+    obtain ⟨h4, h5⟩ := C02_optimal hwf hp
+    exact ⟨p, hp, h1, h2, h3, h4, h5⟩
+  · exact absurd hr (C02_complete_error hwf hno)
+
+/-- (3, dual) cells that are not connected: every legal and sufficient run ends in the error branch -/
+theorem C02_disconnected_returns_error {rows cols : Nat} {E : List Edge} (hwf : WF rows cols E) {start endc : Cell}
+    {picks : List Cell} {fuel : Nat} (hs : inGrid rows cols start) (hr : ¬ Reach E start endc)
+    (hleg : AstarPicksLegal rows cols E start endc picks) (hlen : rows * cols ≤ picks.length)
+    (hf : rows * cols + 1 ≤ fuel) :
+    astar rows cols E start endc picks fuel = .noPath := by
+  rcases C02_never_stuck hs hleg hlen hf with ⟨p, hp⟩ | hno
+  · exact absurd (C02_complete_found hwf hp) hr
+  · exact hno
+
+/-- the answer is decided by connectivity alone: under legal and sufficient picks, `.found` iff `Reach` -/
+theorem C02_found_iff_reach {rows cols : Nat} {E : List Edge} (hwf : WF rows cols E) {start endc : Cell}
+    {picks : List Cell} {fuel : Nat} (hs : inGrid rows cols start)
+    (hleg : AstarPicksLegal rows cols E start endc picks) (hlen : rows * cols ≤ picks.length)
+    (hf : rows * cols + 1 ≤ fuel) :
+    ((∃ p, astar rows cols E start endc picks fuel = .found p) ↔ Reach E start endc) ∧
+    (astar rows cols E start endc picks fuel = .noPath ↔ ¬ Reach E start endc) := by
+  refine ⟨⟨fun ⟨p, hp⟩ => C02_complete_found hwf hp, fun hr => ?_⟩,
+    ⟨C02_complete_error hwf, fun hr => C02_disconnected_returns_error hwf hs hr hleg hlen hf⟩⟩
+  obtain ⟨p, hp, _⟩ := C02_connected_returns_shortest hwf hs hr hleg hlen hf
+  exact ⟨p, hp⟩
+
+/-- strong form of C02 (proved as `C02_full_strong_holds`): on top of `C02_full`, the solver ANSWERS -/
+def C02_full_strong : Prop :=
+  -- a legal pick exists in every state with a non-empty open set (and `argminPick` finds it)
+  (∀ s : AS, s.opn ≠ [] → ∃ c, argminPick s = some c ∧ Legal s c) ∧
+  -- admissible strategies exist
+  (∃ strat : AS → Cell, LegalStrategy strat) ∧
+  ∀ (rows cols : Nat) (E : List Edge), WF rows cols E → ∀ (start endc : Cell), inGrid rows cols start →
+    -- A. every pick list that is legal when used and has `rows*cols` entries, every fuel ≥ `rows*cols + 1`
+    (∀ (picks : List Cell) (fuel : Nat), AstarPicksLegal rows cols E start endc picks → rows * cols ≤ picks.length →
+      rows * cols + 1 ≤ fuel →
+      (Reach E start endc → ∃ path, astar rows cols E start endc picks fuel = .found path ∧
+        path.head? = some start ∧ path.getLast? = some endc ∧ IsWalkList (Adj E) path ∧
+        Walk (Adj E) start endc (steps path) ∧ ∀ m, Walk (Adj E) start endc m → steps path ≤ m) ∧
+      (¬ Reach E start endc → astar rows cols E start endc picks fuel = .noPath)) ∧
+    -- B. every admissible strategy (asked `rows*cols` times), every fuel ≥ `rows*cols + 1`
+    (∀ (strat : AS → Cell) (fuel : Nat), LegalStrategy strat → rows * cols + 1 ≤ fuel →
+      (Reach E start endc → ∃ path,
+        astar rows cols E start endc (astarStratPicks rows cols E start endc strat (rows * cols)) fuel = .found path ∧
+        path.head? = some start ∧ path.getLast? = some endc ∧ IsWalkList (Adj E) path ∧
+        Walk (Adj E) start endc (steps path) ∧ ∀ m, Walk (Adj E) start endc m → steps path ≤ m) ∧
+      (¬ Reach E start endc →
+        astar rows cols E start endc (astarStratPicks rows cols E start endc strat (rows * cols)) fuel = .noPath))
+
+theorem C02_full_strong_holds : C02_full_strong := by
+  refine ⟨fun s h => ?_, ⟨argminStrat, C02_argmin_strategy_legal⟩, ?_⟩
+  · obtain ⟨c, hc, hl⟩ := (C02_legal_pick_exists s).1 h
+    exact ⟨c, hc, hl⟩
+  · intro rows cols E hwf start endc hs
+    refine ⟨fun picks fuel hleg hlen hf => ⟨fun hr => C02_connected_returns_shortest hwf hs hr hleg hlen hf,
+      fun hr => C02_disconnected_returns_error hwf hs hr hleg hlen hf⟩, ?_⟩
+    intro strat fuel hstrat hf
+    obtain ⟨h1, h2⟩ := C02_strategy_picks_legal (rows := rows) (cols := cols) (E := E) (start := start) (endc := endc)
+      hstrat (rows * cols)
+    have hlen : rows * cols ≤ (astarStratPicks rows cols E start endc strat (rows * cols)).length := by
+      rw [h2]; exact Nat.le_refl _
+    exact ⟨fun hr => C02_connected_returns_shortest hwf hs hr h1 hlen hf,
+      fun hr => C02_disconnected_returns_error hwf hs hr h1 hlen hf⟩
+
 /-! ## non-vacuity: a cyclic 2x2 maze and a disconnected one -/
 example : astar 2 2 [(0,0,0),(1,0,0),(0,0,1),(1,1,0)] (0,0) (1,1) [(0,0),(0,1),(1,1)] 9 = .found [(0,0),(0,1),(1,1)] := by decide
 example : astar 2 2 [(1,0,0)] (0,0) (1,1) [(0,0),(0,1)] 9 = .noPath := by decide
 example : WF 2 2 [(0,0,0),(1,0,0),(0,0,1),(1,1,0)] := by decide
+
+/-! ## non-vacuity of the progress theorems (same cyclic 2x2 maze `Ecyc`, and the disconnected one `Ecut`) -/
+-- (1) `argminPick` answers on a concrete state, `none` on the empty open set
+example : argminPick (initState (0,0) (1,1)) = some (0,0) := by decide
+example : argminPick (expand (coordNeighbors 2 2 [(0,0,0),(1,0,0),(0,0,1),(1,1,0)]) (manhattan (1,1))
+    (initState (0,0) (1,1)) (0,0)) = some (0,1) := by decide
+example : argminPick { initState (0,0) (1,1) with opn := [] } = none := by decide
+-- the reviewer's witness is excluded by the length hypothesis only (its picks are vacuously legal) …
+example : astar 2 2 [(0,0,0),(1,0,0),(0,0,1),(1,1,0)] (0,0) (1,1) [] 9 = .outOfPicks := by decide
+example : AstarPicksLegal 2 2 [(0,0,0),(1,0,0),(0,0,1),(1,1,0)] (0,0) (1,1) [] ∧ ¬ (2 * 2 ≤ ([] : List Cell).length) :=
+  ⟨trivial, by decide⟩
+-- … and an illegal pick by the legality hypothesis
+example : astar 2 2 [(0,0,0),(1,0,0),(0,0,1),(1,1,0)] (0,0) (1,1) [(0,0),(1,1),(1,1),(1,1)] 9 = .illegalPick := by decide
+example : ¬ AstarPicksLegal 2 2 [(0,0,0),(1,0,0),(0,0,1),(1,1,0)] (0,0) (1,1) [(0,0),(1,1),(1,1),(1,1)] := by
+  intro h
+  have h1 := (h (by decide)).2 (by decide)
+  have h2 := (h1 (by decide)).1
+  exact absurd h2 (by decide)
+-- (2)/(3) the strategy `argminStrat` asked rows*cols = 4 times: its picks, and the answers on a connected / a cut pair
+example : astarStratPicks 2 2 [(0,0,0),(1,0,0),(0,0,1),(1,1,0)] (0,0) (1,1) argminStrat (2 * 2)
+    = [(0,0),(0,1),(1,0),(1,1)] := by decide
+example : astar 2 2 [(0,0,0),(1,0,0),(0,0,1),(1,1,0)] (0,0) (1,1)
+    (astarStratPicks 2 2 [(0,0,0),(1,0,0),(0,0,1),(1,1,0)] (0,0) (1,1) argminStrat (2 * 2)) (2 * 2 + 1)
+    = .found [(0,0),(0,1),(1,1)] := by decide
+example : astar 2 2 [(1,0,0)] (0,0) (1,1) (astarStratPicks 2 2 [(1,0,0)] (0,0) (1,1) argminStrat (2 * 2)) (2 * 2 + 1)
+    = .noPath := by decide
+-- a hand-written legal and sufficient list (the OTHER tie-breaks: (1,0) first, then the goal) satisfies the hypotheses of
+-- `C02_never_stuck` / `C02_connected_returns_shortest` and gives the other shortest path
+example : AstarPicksLegal 2 2 [(0,0,0),(1,0,0),(0,0,1),(1,1,0)] (0,0) (1,1) [(0,0),(1,0),(1,1),(7,7)] := by
+  refine fun _ => ⟨by decide, fun _ => fun _ => ⟨by decide, fun _ => fun _ => ⟨by decide, fun h => absurd rfl h⟩⟩⟩
+example : astar 2 2 [(0,0,0),(1,0,0),(0,0,1),(1,1,0)] (0,0) (1,1) [(0,0),(1,0),(1,1),(7,7)] 5
+    = .found [(0,0),(1,0),(1,1)] := by decide
+example : Reach [(0,0,0),(1,0,0),(0,0,1),(1,1,0)] (0,0) (1,1) :=
+  (Reach.step (.refl _) (Or.inl ⟨rfl, by decide⟩)).trans (Reach.step (.refl _) (Or.inr (Or.inr (Or.inl ⟨rfl, by decide⟩))))
+example : WF 2 2 [(1,0,0)] ∧ inGrid 2 2 (0,0) := by decide
 
 end MZ.AStar
